@@ -1,9 +1,14 @@
 (* C14 property theorems.  Nothing but statements closed by `exact`, each followed by Print Assumptions.
    Moduli lists: any length >= 1, any order, every modulus > 0, pairwise coprime (good_moduli).
    "int" = IntRNSsystem (Integer residues), "dom" = RNSsystem<RING,Domain> (residues are domain elements).
-   Statements: ProofsSystem.v (Reciprocals_stmt, Garner_stmt, Unique_stmt, Unique_no_coprime_stmt, Inverse_stmt,
-   *_history_stmt, *_end_to_end_stmt, Functor_*_stmt), ProofsPoly.v (Poly_crt_full_stmt), ProofsBalanced.v (Balanced_stmt,
-   Fixed_pair_stmt), ProofsFixed.v (Fixed_tree_stmt), ProofsLift.v (Lift_chain_stmt). *)
+   Statements: ProofsSystem.v (Reciprocals_stmt, Garner_stmt, Garner_any_stmt, Unique_stmt, Unique_no_coprime_stmt, Inverse_stmt,
+   *_history_stmt, *_end_to_end*_stmt, Undefined_stmt, Functor_*_stmt), ProofsPoly.v (Poly_crt_full_stmt), ProofsBalanced.v
+   (Balanced_stmt, Fixed_pair_stmt), ProofsFixed.v (Fixed_tree_stmt, Fixed_tree_any_stmt, Fix_history_stmt), ProofsLift.v
+   (Lift_chain_stmt, Functor_noreduce_value_stmt).
+   Facts about the source that the object theorems take as parameters (isrc / dsrc / fsrc: copy maps, members assigned by
+   operator=, statement list of setPrimes, converting constructor, first digit / left leaf reduced or not) are read from
+   /repo by checks/C14.py on every run; the theorems are stated for the values found there (isrc_repo, dsrc_repo,
+   fsrc_repo) and the `_refuted` twins show that each fact matters. *)
 From Coq Require Import ZArith List.
 From C14 Require Import Model ProofsArith ProofsGarner ProofsSystem ProofsPoly ProofsBalanced ProofsFixed ProofsLift.
 Import ListNotations.
@@ -27,6 +32,16 @@ Print Assumptions C14_int_mixed_radix.
 Theorem C14_dom_mixed_radix : Garner_stmt (fun ps rs => RnsToMixedRadix_dom ps (ComputeCk_dom ps) rs).
 Proof. exact garner_dom. Qed.
 Print Assumptions C14_dom_mixed_radix.
+(* the two theorems above need the FIRST residue canonical (Garner_stmt: 0 <= hd rs < hd ps): IntRNSsystem copied it into
+   mixrad[0] as it comes.  With the first digit reduced (repair frag/C14.fix-3) ANY representatives are right ... *)
+Theorem C14_int_mixed_radix_any_residues : Garner_any_stmt (fun ps rs => RnsToMixedRadix_int_h true ps (ComputeCk_int ps) rs).
+Proof. exact garner_int_any. Qed.
+Print Assumptions C14_int_mixed_radix_any_residues.
+(* ... and for the body that copies it the unrestricted statement is false (moduli 3, 5, residues 18, 2: digits 18, 3, value 27) *)
+Theorem C14_int_mixed_radix_unreduced_head_refuted :
+  ~ Garner_any_stmt (fun ps rs => RnsToMixedRadix_int_h false ps (ComputeCk_int ps) rs).
+Proof. exact garner_int_any_unreduced_refuted. Qed.
+Print Assumptions C14_int_mixed_radix_unreduced_head_refuted.
 
 (* uniqueness of the integer in [0, prod) with given residues *)
 Theorem C14_unique : Unique_stmt.                               Proof. exact unique. Qed.
@@ -42,28 +57,48 @@ Print Assumptions C14_int_conversions_inverse.
 Theorem C14_dom_conversions_inverse : Inverse_stmt RnsToRing_dom.   Proof. exact inverse_dom. Qed.
 Print Assumptions C14_dom_conversions_inverse.
 
-(* every answer of a system object is that of a freshly constructed one, for EVERY history of constructors (plain,
-   templated converting, default), copies, assignments, setPrimes and earlier calls.  The two facts about the source the
-   statement depends on are read from /repo on every run: the copy constructor takes _ck from _ck (FromCk) and the
-   converting constructor leaves _ck empty (CkEmpty) *)
-Theorem C14_int_history_independent : Int_history_stmt FromCk CkEmpty.  Proof. exact int_history. Qed.
+(* every answer of a system object is the value of the conversion functions on the primes it stands for, for EVERY history
+   of constructors (plain, templated converting, default), copies, assignments (member by member, onto any earlier
+   object), setPrimes (statement by statement, on any earlier object) and earlier calls; on an object without primes or
+   with too few residues there is no answer (None), as in the code.  Source facts (read on every run): copy map FromCk,
+   converting constructor CkEmpty, operator= assigns all members, setPrimes = allocate(0); copy; _ck.resize(0); ComputeCk() *)
+Theorem C14_int_history_independent : forall head_reduced, Int_history_stmt (isrc_repo head_reduced).
+Proof. exact int_history. Qed.
 Print Assumptions C14_int_history_independent.
-Theorem C14_dom_history_independent : Dom_history_stmt.         Proof. exact dom_history. Qed.
+Theorem C14_dom_history_independent : Dom_history_stmt dsrc_repo.         Proof. exact dom_history. Qed.
 Print Assumptions C14_dom_history_independent.
-(* the copy map _ck(R._primes) of the unrepaired constructor does not have the property *)
-Theorem C14_int_copy_from_primes_refuted : ~ Int_history_stmt FromPrimes CkEmpty.
+(* each source fact matters: the copy map _ck(R._primes) of the copy constructor before 18d368d (history) ... *)
+Theorem C14_int_copy_from_primes_refuted : ~ Int_history_stmt (mkIsrc FromPrimes CkEmpty imembers_all false).
 Proof. exact int_history_from_primes_refuted. Qed.
 Print Assumptions C14_int_copy_from_primes_refuted.
-(* a converting constructor that sizes _ck in its initialiser list does not have it either (ComputeCk tests _ck.size()) *)
-Theorem C14_int_ctor_presized_refuted : ~ Int_history_stmt FromCk CkSized.
+(* ... a converting constructor that sizes _ck in its initialiser list (ComputeCk tests _ck.size()) ... *)
+Theorem C14_int_ctor_presized_refuted : ~ Int_history_stmt (mkIsrc FromCk CkSized imembers_all false).
 Proof. exact int_history_presized_refuted. Qed.
 Print Assumptions C14_int_ctor_presized_refuted.
+(* ... an operator= that does not assign _ck ... *)
+Theorem C14_int_assign_without_ck_refuted : ~ Int_history_stmt (mkIsrc FromCk CkEmpty [IMprimes; IMprod] false).
+Proof. exact int_history_assign_without_ck_refuted. Qed.
+Print Assumptions C14_int_assign_without_ck_refuted.
+Theorem C14_dom_assign_without_ck_refuted : ~ Dom_history_stmt (mkDsrc dmembers_all [DMprimes] set_prog_repo).
+Proof. exact dom_history_assign_without_ck_refuted. Qed.
+Print Assumptions C14_dom_assign_without_ck_refuted.
+(* ... a setPrimes without `_ck.resize(0)` *)
+Theorem C14_dom_setPrimes_without_reset_refuted :
+  ~ Dom_history_stmt (mkDsrc dmembers_all dmembers_all [SAllocPrimes0; SCopyPrimes; SComputeCk]).
+Proof. exact dom_history_set_without_reset_refuted. Qed.
+Print Assumptions C14_dom_setPrimes_without_reset_refuted.
 
 (* end to end: any history, canonical residues: RnsToRing is THE integer of [0, prod) with these residues *)
 Theorem C14_int_end_to_end : Int_end_to_end_stmt.               Proof. exact int_end_to_end. Qed.
 Print Assumptions C14_int_end_to_end.
 Theorem C14_dom_end_to_end : Dom_end_to_end_stmt.               Proof. exact dom_end_to_end. Qed.
 Print Assumptions C14_dom_end_to_end.
+(* the same for ANY representatives as residues (IntRNSsystem takes raw integers), for the body that reduces the first digit *)
+Theorem C14_int_end_to_end_any_residues : Int_end_to_end_any_stmt.   Proof. exact int_end_to_end_any. Qed.
+Print Assumptions C14_int_end_to_end_any_residues.
+(* where the code has no answer (no primes; RNSsystem::MixedRadixToRing with a digit array of another size) the model has none *)
+Theorem C14_undefined_where_the_code_is : Undefined_stmt.      Proof. exact undefined_cases. Qed.
+Print Assumptions C14_undefined_where_the_code_is.
 
 (* ChineseRemainder<Ring,Domain,true> as repaired: the unique lift in [0, M*D) *)
 Theorem C14_functor_canonical : Functor_canonical_stmt cra_reduce_fixed.
@@ -79,6 +114,10 @@ Print Assumptions C14_functor_unrepaired_range_refuted.
 Theorem C14_functor_noreduce_congruent : Functor_congruent_stmt cra_noreduce.
 Proof. exact functor_noreduce_congruent. Qed.
 Print Assumptions C14_functor_noreduce_congruent.
+(* REDUCE = false, the value: res = A + (e - A) (M^-1 mod D) M, and reduced into [0, M D) it is the canonical lift *)
+Theorem C14_functor_noreduce_value : Functor_noreduce_value_stmt.
+Proof. exact functor_noreduce_value. Qed.
+Print Assumptions C14_functor_noreduce_value.
 
 (* Poly1CRT over GF(p), p prime, points pairwise distinct mod p: RnsToRing has canonical coefficients, degree below the
    number of points and takes the given values (RingToRns o RnsToRing = id); it is the ONLY such polynomial; and
@@ -94,11 +133,28 @@ Print Assumptions C14_balanced_domains.
 (* RNSsystemFixed: one combination step of the product tree is exact ... *)
 Theorem C14_fixed_pair_step : Fixed_pair_stmt.   Proof. exact fixed_pair. Qed.
 Print Assumptions C14_fixed_pair_step.
-(* ... and so is the whole recursion RnsToRingLeft/RnsToRingRight over the stored tree followed by the inner unbalanced
-   RNSsystem, for EVERY number of primes >= 1 (any order, pairwise coprime, canonical residues): the result is in
-   [0, prod), has the given residues, and is the only such integer *)
+(* ... and so is the whole conversion (constructor tree, recursion RnsToRingLeft/RnsToRingRight over the stored tree, inner
+   unbalanced RNSsystem) for EVERY number of primes >= 1 (any order, pairwise coprime): the result is in [0, prod), has the
+   given residues, and is the only such integer.  Body in which a left leaf returns the residue as it comes: CANONICAL
+   residues ... *)
 Theorem C14_fixed_tree : Fixed_tree_stmt.   Proof. exact fixed_tree_correct. Qed.
 Print Assumptions C14_fixed_tree.
+(* ... body in which RnsToRingLeft reduces a left leaf (repair frag/C14.fix-4): ANY representatives as residues ... *)
+Theorem C14_fixed_tree_any_residues : Fixed_tree_any_stmt true.   Proof. exact fixed_tree_any. Qed.
+Print Assumptions C14_fixed_tree_any_residues.
+(* ... which is false without that reduction (one prime 7, residue 10 gives 10) *)
+Theorem C14_fixed_tree_unreduced_leaf_refuted : ~ Fixed_tree_any_stmt false.
+Proof. exact fixed_tree_any_unreduced_refuted. Qed.
+Print Assumptions C14_fixed_tree_unreduced_leaf_refuted.
+(* RNSsystemFixed objects { tree, inner RNSsystem }: every answer is that of the conversion function of the primes, for every
+   history of constructors, member-wise copies and assignments and earlier conversions *)
+Theorem C14_fixed_history_independent : forall leaf_reduced, Fix_history_stmt (fsrc_repo leaf_reduced).
+Proof. exact fix_history. Qed.
+Print Assumptions C14_fixed_history_independent.
+(* history (before 380857a): a copy constructor that does not copy the inner _RNS *)
+Theorem C14_fixed_copy_without_rns_refuted : ~ Fix_history_stmt (mkFsrc [FMtree] fmembers_all false dsrc_repo).
+Proof. exact fix_history_copy_without_rns_refuted. Qed.
+Print Assumptions C14_fixed_copy_without_rns_refuted.
 
 (* incremental lifting by the (repaired) two-modulus functor over any list of pairwise coprime moduli: every intermediate
    value x_k is in [0, p_0 ... p_k) and has the residues r_0 .. r_k (any representatives); unique by C14_unique *)
